@@ -7,7 +7,7 @@
 (* persisted table, replies are Offer (ADVERTISE carrying an address), Ack *)
 (* (REPLY carrying an address), Refuse (no address / no reply), AnyR, Ok,  *)
 (* Err; FreeAddrs / Recyclable / Allocs / DiscoverOut / ExpireOut /        *)
-(* ReleaseOut / DeclineOut / RemoveStaticOut / Statics are Dhcp4's.  Only  *)
+(* ReleaseOut / RemoveStaticOut / Statics / UpdEnabled are Dhcp4's.  Only  *)
 (* what the DHCPv6 documentation states differently (or does not state) is *)
 (* written here.                                                           *)
 (*                                                                         *)
